@@ -705,6 +705,20 @@ func (s *Sim) RunTxn(i int) {
 		nops = 0
 		s.writeOp(what, wtxn, set[0], working[set[0]], true)
 	}
+	if s.forced == nil {
+		for _, t := range set {
+			if t.schema.LongIDs && s.Rng.IntN(6) == 0 {
+				// deep chain: "/d", "/d/d", ... all present at once (radix tree depth = chain length, up to 60)
+				depth := 30 + s.Rng.IntN(31)
+				s.Logf("%s %s chain depth=%d", what, t.name, depth)
+				for i := 1; i <= depth && !s.Failed; i++ {
+					s.forced = &forcedOp{kind: 0, id: bytes.Repeat([]byte("/d"), i)}
+					s.writeOp(what, wtxn, t, working[t], true)
+					s.forced = nil
+				}
+			}
+		}
+	}
 	for j := 0; j < nops && !s.Failed; j++ {
 		t := set[s.Rng.IntN(len(set))]
 		if len(set) < len(s.Tabs) && s.Rng.IntN(12) == 0 {
